@@ -67,4 +67,15 @@ theorem grouping_signatures :
     DataFrame_aggregate_signature = ["self", "**colname_function_pairs"] ∧ DataFrame_split_signature = ["self", "*by"] ∧
     DataFrame_modify_signature = ["self", "**colname_value_pairs"] := ⟨rfl, rfl, rfl⟩
 
+/-! ### evaluation order -/
+
+/-- `split` numbers the rows BEFORE sorting and the sorted positions AFTER it (the two `np.arange` calls around `data.sort`),
+    and asks `unique` of the sorted frame. -/
+theorem split_call_order :
+    DataFrame_split_call_order = ["self.select", "np.arange", "dict.fromkeys", "data.sort", "np.arange", "data.unique", "np.split"] := rfl
+
+/-- `count` groups a COPY of the receiver. -/
+theorem count_call_order :
+    DataFrame_count_call_order = ["self.copy", "self.copy().group_by", "dataiter.count", "self.copy().group_by(*colnames).aggregate"] := rfl
+
 end DI.Tie.C04
